@@ -879,7 +879,35 @@ func c05PatternChurn(round int) core.Result {
 	return core.Okay(true, first)
 }
 
+// c05UnaryPostfix: a filter, attribute access or call written directly after an operand binds to the operand, a
+// unary operator in front applies to the result: -5|g is -(5|g), the callback sees 5.
+func c05UnaryPostfix(i int) core.Result {
+	cases := []struct{ src, out, log string }{
+		{"{{ -5|g }}", "-5", "g(5)"}, {"{{ -2.5|g(1) }}", "-2.5", "g(2.5;1)"}, {"{{ - 5|g }}", "-5", "g(5)"}, {"{{ (-5)|g }}", "-5", "g(-5)"},
+		{"{{ -n|g }}", "-7", "g(7)"}, {"{{ +5|g }}", "5", "g(5)"}, {"{{ -5|g|g }}", "-5", "g(5) g(5)"}, {"{{ 3 -5|g }}", "-2", "g(5)"}, {"{{ 3 - -5|g }}", "8", "g(5)"},
+		{"{{ -r(5) }}", "-5", "r(5)"}, {"{{ -[5][0]|g }}", "-5", "g(5)"}, {"{{ not 0|g ? 'y' : 'n' }}", "y", "g(0)"}, {"{{ -5 is t(1) ? 'y' : 'n' }}", "y", "t(-5;1)"},
+		{"{{ r(-5) }}", "-5", "r(-5)"}, {"{{ [-5, -n]|j }}", "-5,-7", "j([-5,-7])"}, {"{{ 2 * -3|g }}", "-6", "g(3)"}, {"{{ -1|g }}", "-1", "g(1)"},
+	}
+	cs := cases[i]
+	var log []string
+	out, err, pan := tryExec(c05Env(&log), cs.src, map[string]stick.Value{"n": 7})
+	if pan != "" || err != nil {
+		return core.Violation("error", fmt.Sprintf("%q: %v %s", cs.src, err, pan))
+	}
+	got := strings.Join(log, " ")
+	norm := func(s string) string { return strings.NewReplacer("float64(", "", "int(", "", ")", "").Replace(s) }
+	if out != cs.out || norm(got) != norm(cs.log) {
+		return core.Violation("callbacks", fmt.Sprintf("%q renders %q with the callbacks seeing %q; want %q and %q", cs.src, out, got, cs.out, cs.log))
+	}
+	return core.Okay(true, out)
+}
+
+const c05UnaryPostfixN = 17
+
 func c05Run(c core.Case) core.Result {
+	if c.Fam == "unpost" {
+		return c05UnaryPostfix(c.N[0])
+	}
 	if c.Fam == "rangein" {
 		return c05RangeIn(c.N[0], c.N[1], c.N[2])
 	}
@@ -983,6 +1011,9 @@ func c05Levels(tier string) []core.Level {
 			}
 			for r := 0; r < 16; r++ {
 				emit(core.Case{Fam: "churn", N: []int{r}})
+			}
+			for i := 0; i < c05UnaryPostfixN; i++ {
+				emit(core.Case{Fam: "unpost", N: []int{i}})
 			}
 		}},
 		{Name: "every operand alone (20 values as literal and as variable), every unary operator on it, array/hash literal and access forms", Gen: func(emit func(core.Case)) {
